@@ -279,7 +279,11 @@ func runC12One(cs *vrt.Case) {
 					}
 					cs.Evals++
 					if oc[0].Cmp(or[0]) != 0 {
-						cs.Violate("C12|folded-differs|"+class, fmt.Sprintf("%s (consumer %s): folded program returns %s, run-time evaluation of the same values %s (x=%s)", ec, co.name, oc[0].Text(10), or[0].Text(10), x),
+						// the enumeration is deterministic: the unchanged tree's failing
+						// (type, values, consumer) tuples of the known classes are pinned;
+						// another failing tuple of a known class is a new witness
+						wkey := vrt.WitnessKey("C12|folded-differs|"+class, fmt.Sprintf("%016x", vrt.Hash64(T, op, a.String(), b.String(), co.name)))
+						cs.Violate(wkey, fmt.Sprintf("%s (consumer %s): folded program returns %s, run-time evaluation of the same values %s (x=%s)", ec, co.name, oc[0].Text(10), or[0].Text(10), x),
 							map[string]any{"case": desc, "x": x.String()})
 						ok = false
 						break
